@@ -28,7 +28,7 @@ ASSUMPTIONS = [
     "don't-care pairs (bool against float/complex, Any, Literal containing 1 vs True/1.0, str against Sequence) give no verdict",
     "with the switch off, non-node values in child fields are outside the statement (the digest needs child nodes); property fields accept any value",
 ]
-MUST_SEE = ["failed_operations_with_checks_on", "same_annotation_text_other_type", "false_vs_bool", "bool_vs_int", "bool_vs_int_union", "bool_in_int_tuple", "fixed_tuple_too_long", "fixed_tuple_too_short", "multi_two_bad", "noninit_bad_default", "switch_off_same_node", "nonconforming", "conforming", "noncompare_fields_checked", "ill_typed_value_equal_to_default", "parent_used_before_subclass"]
+MUST_SEE = ["mixin_inherited_fields", "failed_operations_with_checks_on", "same_annotation_text_other_type", "false_vs_bool", "bool_vs_int", "bool_vs_int_union", "bool_in_int_tuple", "fixed_tuple_too_long", "fixed_tuple_too_short", "multi_two_bad", "noninit_bad_default", "switch_off_same_node", "nonconforming", "conforming", "noncompare_fields_checked", "ill_typed_value_equal_to_default", "parent_used_before_subclass"]
 CONFIG = {
     "quick": {"shards": 16, "d2_sample": 150, "multi": 300, "watchdog_s": 600},
     "thorough": {"shards": 32, "d2_sample": 400, "multi": 600, "watchdog_s": 3400},
@@ -186,6 +186,31 @@ def run_shard(ctx):
             r[1].detach()
         if got != exp:
             ctx.violation("same-text-other-type", f"{C.__name__[len(P):]} construction: invalid fields {got}, expected {exp} (two classes of one postponed-annotation module spell different class-level types with the same text)", {"class": C.__name__[len(P):], "values": {k_: vrepr(v) for k_, v in kw.items()}})
+    # ------------------------------------------------------------ fields inherited from a plain dataclass mixin (either base order)
+    src = (
+        f"@dataclass(frozen=True)\nclass {P}PlainMix:\n    tag: int = 0\n    label: str = ''\n\n"
+        f"@dataclass(frozen=True)\nclass {P}MA1(ASTNode, {P}PlainMix):\n    x: int = 0\n\n"
+        f"@dataclass(frozen=True)\nclass {P}MA2({P}PlainMix, ASTNode):\n    x: int = 0\n\n"
+        f"@dataclass(frozen=True)\nclass {P}MA3({P}MA1):\n    y: str = ''\n"
+    )
+    exec(compile(src, "<c13 mixins>", "exec", dont_inherit=True), ns)
+    mq = [
+        (dict(tag=1, label="a", x=2), []),
+        (dict(tag="1"), ["tag"]),
+        (dict(tag=True, label=5, x="s"), ["label", "tag", "x"]),
+        (dict(label=None), ["label"]),
+        (dict(x=1.5), ["x"]),
+    ]
+    for cn in (f"{P}MA1", f"{P}MA2", f"{P}MA3", f"{P}MA1"):
+        for kw, exp in (mq if ctx.shard % 2 else list(reversed(mq))):
+            ctx.evaluations += 1
+            ctx.count("mixin_inherited_fields")
+            r = construct(ns[cn], kw, True)
+            got = [] if r[0] == "ok" else r[1]
+            if r[0] == "ok":
+                r[1].detach()
+            if got != exp:
+                ctx.violation("nonconforming-accepted" if exp and r[0] == "ok" else "invalid-fields-wrong", f"{cn[len(P):]}: fields inherited from a plain dataclass mixin: invalid fields {got}, expected {exp}", {"class": cn[len(P):], "source": src.replace(P, ""), "values": {k_: vrepr(v) for k_, v in kw.items()}})
     # ------------------------------------------------------------ single-field classes
     for k, a in enumerate(mine):
         ctx.case = ("single", k)
